@@ -20,12 +20,13 @@ CRASH_EXIT = 77      # exit status of a lifetime killed by its own crash plan
 
 
 class Seam:
-    def __init__(self, root, chunk=65536, crash=None, enospc_after=None, gate=None):
+    def __init__(self, root, chunk=65536, crash=None, enospc_after=None, gate=None, oserr=None):
         self.root = os.path.realpath(root)
         self.chunk = max(1, int(chunk))
         self.crash = crash or None      # {"op": k, "when": "before"|"after"} | {"wbytes": n}
         self.enospc_after = enospc_after
         self.gate = gate                # callable(desc) -> None, may block
+        self.oserr = oserr or None      # {"op": k, "errno": "EIO"}: operation k fails
         self.nops = 0
         self.wbytes = 0
         self.log = []                   # (k, name, relpath, detail)
@@ -64,6 +65,13 @@ class Seam:
         c = self.crash
         if c and c.get("op") == k and c.get("when", "before") == "before":
             self._die()
+        f = self.oserr
+        if f and f.get("op") == k:
+            en = getattr(errno, f.get("errno", "EIO"))
+            ex = OSError(en, os.strerror(en), os.path.join(self.root, rel))
+            ex.injected_by_simulator = True
+            self.log[-1] = (k, name, rel, "injected-" + f.get("errno", "EIO"))
+            raise ex
         return k
 
     def _after(self, k):
